@@ -29,15 +29,16 @@ pub fn parse_fragment(path: &Path) -> Result<Vec<Txn>, String> {
             out.push(std::mem::take(&mut cur));
             continue;
         }
-        if line.len() < 9 || !line.is_ascii() {
+        if line.len() < 9 || !line.is_char_boundary(8) {
             return Err(format!("{}: malformed line {n}", path.display()));
         }
         let want = u32::from_str_radix(&line[..8], 16).map_err(|_| format!("{}: bad crc on line {n}", path.display()))?;
         if crc32c::crc32c(&line.as_bytes()[8..]) != want {
             return Err(format!("{}: crc mismatch on line {n}", path.display()));
         }
-        let action = line.as_bytes()[8] as char;
-        let payload = line[9..].to_string();
+        let mut chars = line[8..].chars();
+        let action = chars.next().unwrap();
+        let payload = chars.as_str().to_string();
         match action {
             '+' => {
                 cur.added.insert(payload);
